@@ -61,6 +61,16 @@ class Judge(object):
 
     def comment_expr(self, e, locals_ok):
         """is the string expression certainly a comment line (or blank)?"""
+        # a comment that carries line-break hints (tab / form feed: a literal, or a rendering asked to place them with
+        # continuation=True) is continued by write_continue on a line WITHOUT the comment leader: its tail becomes code
+        for x in ast.walk(e):
+            if isinstance(x, ast.Name) and x.id in getattr(self, "hinted", ()):
+                return False
+            if isinstance(x, ast.Constant) and isinstance(x.value, str) and ("\t" in x.value or "\f" in x.value):
+                return False
+            if isinstance(x, ast.Call) and any(k.arg == "continuation" and not (isinstance(k.value, ast.Constant) and k.value.value is False)
+                                               for k in x.keywords):
+                return False
         if isinstance(e, ast.Constant):
             return isinstance(e.value, str) and literal_is_comment(e.value) or isinstance(e.value, int) and False
         if isinstance(e, ast.Attribute) and e.attr in COMMENT_NAMES:
@@ -305,6 +315,14 @@ class Judge(object):
             for c in ast.iter_child_nodes(n):
                 parents[id(c)] = n
         self.parents = parents
+        # locals bound (anywhere in the function) to a text with line-break hints
+        self.hinted = set()
+        for n in ast.walk(func):
+            if isinstance(n, ast.Assign) and len(n.targets) == 1 and isinstance(n.targets[0], ast.Name):
+                for x in ast.walk(n.value):
+                    if isinstance(x, ast.Call) and any(k.arg == "continuation" and not (isinstance(k.value, ast.Constant) and k.value.value is False)
+                                                       for k in x.keywords):
+                        self.hinted.add(n.targets[0].id)
         tainted = set()      # locals holding an option value (or computed only from them)
         # collect tainted locals: x = <option read> / x = True|False under an option test
         for n in ast.walk(func):
